@@ -131,11 +131,13 @@ pub struct Limits {
     /// allow values of classes the docs leave open (Level16 > 255 ...)
     pub wide_levels: bool,
     pub allow_nan: bool,
+    /// known findings excluded by construction: definer name -> bits never set when drawing a flag value
+    pub avoid_flag_bits: BTreeMap<String, i128>,
 }
 
 impl Limits {
     pub fn standard() -> Self {
-        Limits { cstring_max: 255, sized_cstring_max: 400, count_caps: [300, 6, 3], wide_levels: false, allow_nan: false }
+        Limits { cstring_max: 255, sized_cstring_max: 400, count_caps: [300, 6, 3], wide_levels: false, allow_nan: false, avoid_flag_bits: BTreeMap::new() }
     }
 }
 
@@ -161,6 +163,8 @@ pub struct Walker<'a> {
     /// (offset, width, start-of-counted-bytes, region) of `self.size` fields to back-patch
     self_sizes: Vec<(usize, usize, usize, usize)>,
     pending_zlib: Vec<Option<(usize, usize)>>,
+    /// variables of flag `else if` chains of which a branch was taken
+    pub elseif_flag_taken: Vec<String>,
 }
 
 #[derive(Debug, Clone)]
@@ -195,6 +199,7 @@ impl<'a> Walker<'a> {
             features: BTreeMap::new(),
             self_sizes: vec![],
             pending_zlib: vec![],
+            elseif_flag_taken: vec![],
         }
     }
 
@@ -216,6 +221,7 @@ impl<'a> Walker<'a> {
             features: BTreeMap::new(),
             self_sizes: vec![],
             pending_zlib: vec![],
+            elseif_flag_taken: vec![],
         }
     }
 
@@ -576,6 +582,12 @@ impl<'a> Walker<'a> {
                         }
                     }
                 }
+                if let Some(avoid) = self.limits.avoid_flag_bits.get(&d.name).copied() {
+                    if value & avoid != 0 {
+                        value &= !avoid;
+                        self.feat("excluded_known_finding_flag_bits");
+                    }
+                }
             }
         }
         let role = if constant.is_some() {
@@ -932,6 +944,9 @@ impl<'a> Walker<'a> {
                 out |= b << (8 * i);
             }
         }
+        // zero-width summary leaf carrying the whole guid (for value checks)
+        let off = self.cur_offset();
+        self.leaf(path, off, 0, false, Role::Guid, "PackedGuid", None, false, Val::I(out as i128));
         out
     }
 
@@ -1107,6 +1122,10 @@ impl<'a> Walker<'a> {
                     }
                     if which != 0 {
                         self.feat("if_taken");
+                        if !ifs.else_ifs.is_empty() && ifs.first.conds[0].op == CondOp::And && which != 1000 {
+                            self.feat("elseif_flag_branch_taken");
+                            self.elseif_flag_taken.push(ifs.var().to_string());
+                        }
                     } else {
                         self.feat("if_not_taken");
                     }
